@@ -53,6 +53,9 @@ def apply(text, rules, what, log):
     text, n = r0_attrs(text)
     text, n = r0_vis(text)
     text, n = r0_pubfields(text)
+    text, n = r0_duration_const(text)
+    if n:
+        log['rewrites'].append({'rule': 'R0c', 'item': what, 'count': n, 'note': 'Duration const as exec const with value ensures'})
     for r in rules:
         if r == 'R9':
             text, n = r9_float_args(text, log)
@@ -167,6 +170,20 @@ def r0_pubfields(text):
     for k in reversed(ins):
         text = text[:k] + 'pub ' + text[k:]
     return text, len(ins)
+
+
+def r0_duration_const(text):
+    """`const X: Duration = Duration::from_millis(N);` -> Verus `exec const` with the value as its ensures
+    (a const initialiser that calls an exec shim must be an exec const in Verus)"""
+    m = mask(text)
+    mo = re.match(r'\s*(pub\s+)?const\s+(' + _IDENT + r')\s*:\s*Duration\s*=\s*Duration::from_(millis|secs)\(\s*([0-9_]+)\s*\)\s*;\s*$', m)
+    if not mo:
+        return text, 0
+    name, unit, val = mo.group(2), mo.group(3), mo.group(4)
+    mult = '1_000_000' if unit == 'millis' else '1_000_000_000'
+    new = ('pub exec const %s: Duration\n    ensures %s.ns@ == %s * %s,\n{ Duration::from_%s(%s) }'
+           % (name, name, val, mult, unit, val))
+    return new, 1
 
 
 def r1_format(text):
